@@ -121,6 +121,20 @@ impl Prop for C12 {
                     timeout: Duration::from_secs(60),
                     what: "registration histories of one infix operator (fresh process each), round trip after every step".into(),
                 },
+                Stage {
+                    name: "deep".into(),
+                    len: super::c03::deep_cases().len() as u64,
+                    chunk: 40,
+                    timeout: Duration::from_secs(600),
+                    what: "19 chain / nesting shapes (operator chains, parentheses, lists, calls, conditionals, prefix chains, `not in` nests, maps) at sizes around 16, 32, 64, 128, 256, 512, 1024: round trip".into(),
+                },
+                Stage {
+                    name: "mixed-associativity".into(),
+                    len: MIXED.len() as u64,
+                    chunk: 1,
+                    timeout: Duration::from_secs(60),
+                    what: "a registered operator that shares a precedence level with built-in operators of the other associativity (fresh process each): every fully parenthesised tree of <= 3 nodes over it and the built-ins of that level must round-trip (no grouping rule is assumed: the round trip is engine against engine)".into(),
+                },
             ],
             rule: "stage 'reregister': every history of <= 3 registrations of one infix operator with (precedence, associativity) drawn from {105,125}x{LEFT,RIGHT}, each history in a fresh process, the 18 two-operator trees over {xop,*,+} round-tripped after every registration (a renderer that remembers binding powers across a re-registration fails here). \
                    for every AST t the parser returns on the inputs: parse(t.expr()) == t and expr() of the re-parsed tree is the same string; non-trivial = >= 1 operator node, distinct = distinct AST; \
@@ -154,6 +168,31 @@ impl Prop for C12 {
             out.count("transitions", 2 * (b - a));
             return;
         }
+        if stage == 3 {
+            let cases = super::c03::deep_cases();
+            for i in a..b {
+                out.at(i);
+                let c = &cases[i as usize];
+                let mut tmp = WorkerOut::default();
+                roundtrip(&c.program, &ops, "deep", &mut tmp);
+                let fails = std::mem::take(&mut tmp.fails);
+                out.merge(tmp);
+                for (k, (f, _)) in fails {
+                    let k = k.split(':').take(2).collect::<Vec<_>>().join(":");
+                    out.fail(format!("{}:{}", k, c.key.split(':').take(2).collect::<Vec<_>>().join(":")), format!("deep|{}", c.key), f.detail.chars().take(300).collect::<String>());
+                }
+            }
+            out.count("states", b - a);
+            out.count("transitions", b - a);
+            return;
+        }
+        if stage == 4 {
+            for i in a..b {
+                out.at(i);
+                run_mixed(MIXED[i as usize], out);
+            }
+            return;
+        }
         if stage == 2 {
             let hs = rereg_histories();
             for i in a..b {
@@ -181,12 +220,50 @@ impl Prop for C12 {
             let ops = OpSet::builtin();
             return show(&parse::print(&programs(tier)[i as usize], &ops, Parens::Minimal));
         }
+        if stage == 3 {
+            return super::c03::deep_cases()[i as usize].key.clone();
+        }
+        if stage == 4 {
+            return format!("{:?}", MIXED[i as usize]);
+        }
         if stage == 2 {
             let hs = rereg_histories();
             return format!("{:?}{}", hs[i as usize % hs.len()], if i as usize >= hs.len() { " re-registrations by another thread" } else { "" });
         }
         show(&seqs(tier).spaced(i))
     }
+}
+
+/// (precedence, left-associative?, the built-in operators on that level): `xop` registered on
+/// a built-in level with the OTHER associativity
+const MIXED: &[(i32, bool, &[&str])] = &[(100, false, &["<<", ">>"]), (110, false, &["+", "-"]), (120, false, &["*", "/", "%"]), (20, true, &["=", "+="]), (60, false, &["<", "=="]), (200, false, &["in"])];
+
+fn run_mixed(case: (i32, bool, &[&str]), out: &mut WorkerOut) {
+    use crate::gen::{relabel, trees_by_size, Kind};
+    use expression_engine::{InfixOpAssociativity, InfixOpType};
+    use std::sync::Arc;
+    let (prec, left, builtins) = case;
+    expression_engine::register_infix_op("xop", prec, InfixOpType::CALC, if left { InfixOpAssociativity::LEFT } else { InfixOpAssociativity::RIGHT }, Arc::new(|a, _| Ok(a)));
+    // the model table is only used to PRINT (fully parenthesised) and to name shapes
+    let mut ops = OpSet::builtin();
+    ops.infix.insert("xop".into(), crate::model::lex::InfixInfo { prec, left, setter: false });
+    let mut kinds: Vec<Kind> = vec![Kind::Infix("xop".into())];
+    kinds.extend(builtins.iter().map(|o| Kind::Infix(o.to_string())));
+    let trees = trees_by_size(&kinds, 3);
+    let rot = crate::gen::leaf_rotation();
+    let mut tmp = WorkerOut::default();
+    for t in trees[1].iter().chain(trees[2].iter()).chain(trees[3].iter()) {
+        let mut n = 0;
+        let t = relabel(t, &mut n, &rot);
+        let text = parse::print(&t, &ops, Parens::Full);
+        roundtrip(&text, &ops, "x", &mut tmp);
+    }
+    let fails = std::mem::take(&mut tmp.fails);
+    out.merge(tmp);
+    for (k, (f, _)) in fails {
+        out.fail(format!("mixed-associativity:{}", k), format!("mixed-associativity|{:?}", case), format!("{}: {}", f.case, f.detail));
+    }
+    out.count("states", 1);
 }
 
 const REREG: &[(i32, bool)] = &[(105, true), (105, false), (125, true), (125, false), (121, true), (111, false)];
